@@ -59,9 +59,11 @@ func (sh *shadow) checkGet(t *lib.Trace, g item, ctx string) {
 			t.Fail("priority:not-max", fmt.Sprintf("Get returned %v although %v (oldest of its transaction) has higher priority; %s", g, p, ctx))
 			break
 		}
+		// ties between equal priorities are NOT part of the property ("the highest-priority
+		// one is delivered first"); which of two equal-priority heads comes first is only
+		// compared with the Lean mirror (a model disagreement), never reported as a failing input
 		if p.prio == g.prio && i < pos {
-			t.Fail("priority:not-earliest", fmt.Sprintf("Get returned %v although the earlier %v has the same priority; %s", g, p, ctx))
-			break
+			t.Count("tie-broken-by-position")
 		}
 	}
 	sh.pending = append(sh.pending[:pos:pos], sh.pending[pos+1:]...)
